@@ -18,7 +18,9 @@ Record frag := mkfrag {
   ftmp : path;                  (* format_XXXXXX chosen by mktemp in the same directory *)
   fpre : list content;          (* chunks written before fchmod *)
   fpost : list content;         (* chunks written after fchmod (by fclose) *)
-  fextra : list content;        (* what fclose still pushes out after a write error *)
+  fextra : list (option content); (* what still happens to the temporary file after a write error that an
+                                   unchecked stdio call swallowed: further writes (Some c) and the fchmod (None);
+                                   the error is then noticed by ferror/fclose *)
   fperm : N }.                  (* permission bits copied from the old file *)
 
 Definition new_text (f : frag) : content := concat (fpre f ++ fpost f).
@@ -30,7 +32,9 @@ Section Proto.
   Variable tfd : fd.
 
   Definition abort (f : frag) : list tstep := [ok (Close tfd); ok (Unlink (ftmp f))].
-  Definition tail_fail (f : frag) : list tstep := map ok (wr tfd (fextra f)) ++ abort f.
+  Definition extra_step (f : frag) (o : option content) : step :=
+    match o with Some c => Write tfd c | None => Fchmod tfd (fperm f) end.
+  Definition tail_fail (f : frag) : list tstep := map ok (map (extra_step f) (fextra f)) ++ abort f.
   Definition commit (f : frag) (e : bool) : step :=
     if e then Unlink (ftmp f) else Rename (ftmp f) (fpath f).
 
